@@ -279,3 +279,45 @@ def finder_lookahead(ctx):
                 ctx.violation(key, f.loc(bi), 'move_pos requires %s bytes of look-ahead, less than the 4 bytes the hash needs' % expr_str(a)[:40])
     if not n:
         ctx.anchor_missing('match finder move_pos wrappers')
+
+
+# --------------------------------------------------------------------------- PENDING-RESET-ORDER
+
+@rule('PENDING-RESET-ORDER', ['C01', 'C07'], floor=1)
+def pending_reset_order(ctx):
+    """The pending counter is shared with the match finder: when the processor replays the pending positions
+    (`match_finder.skip(self, n)`), the finder may have to put some of them back (it increments the counter again
+    through `move_pos` when the look-ahead is still too short). The processor must therefore clear the counter
+    BEFORE it hands `self` to the finder; an absolute store to the counter that can execute after that call throws
+    the re-added positions away, the finder's position lags behind the encoder's and matches are reported for the
+    wrong bytes (undecodable output after write / flush / tiny write / flush)."""
+    F = ctx.facts
+    wins = find_window(F)
+    if len(wins) != 1:
+        ctx.anchor_missing('LZ encoder window with a pending-bytes processor (found %d)' % len(wins))
+        return
+    w = wins[0]
+    f = w['proc']
+    prov = Prov(f)
+    key = '%s:counter-cleared-before-the-replay' % f.key
+    # calls that receive `self` (a reborrow of param 1) mutably: the replay
+    replay = []
+    for bi, t, c in f.calls():
+        for a in t['args']:
+            e = prov.operand(a, 0, '%d:T' % bi)
+            x = e
+            while x[0] in ('ref', 'deref', 'cast'):
+                x = x[-1] if x[0] == 'cast' else x[1]
+            if x[0] == 'param' and x[1] == 1 and c.name not in ('is_empty', 'len'):
+                replay.append(bi)
+                break
+    if not replay:
+        ctx.violation(key, f.loc(0), 'cannot find the call that replays the pending positions (anchor lost, fail closed)')
+        return
+    after = f.reach_from([f.blocks[b]['term']['target'] for b in replay if f.blocks[b]['term'].get('target') is not None])
+    late = [(bi, si) for bi, si, fld, e in _self_stores(f, prov) if fld == w['pending'] and bi in after]
+    if late:
+        ctx.violation(key, f.loc(*late[0]), 'the counter `%s` is stored after the replay call: whatever the match finder put back (positions it could '
+                      'not insert yet) is discarded, its position falls behind the encoder\'s read position' % w['pending'])
+    else:
+        ctx.ok(key, f.loc(replay[0]), '`%s` is cleared before the replay call and not stored afterwards' % w['pending'])
